@@ -33,9 +33,54 @@ Proof.
   apply orb_true_iff. right. apply memk_In; auto.
 Qed.
 
-Lemma Inv_commit_body o s : Inv s -> agg s = None -> Inv (commit_body o s).
+(* commit_body without the keep-alive bookkeeping (proof device): the two differ in the [ka] field only *)
+Definition commit_body0 (o : commit_out) (s : st) : st :=
+  let s0 := set_valid false s in
+  let muts := mutations (co_unnecessary o) s in
+  match muts with
+  | [] => s0
+  | _ =>
+    let s1 := set_committer true s0 in
+    match co_mode o with
+    | M1PC =>
+      match co_res o with
+      | COk => set_store (filter (fun l => negb (memk (fst l) muts)) (store s1)) s1
+      | _ => if pess s1 then add_task (TPessRb muts (N.max (fu s1) (cmaxc s1))) s1 else s1
+      end
+    | _ =>
+      let pw := match co_res o with
+                | CPrewriteFail => filter (fun k => memk k muts) (co_prewritten o)
+                | _ => muts
+                end in
+      let s2 := set_store (fold_right put_prew (store s1) pw) s1 in
+      match co_res o with
+      | COk =>
+        match co_mode o with
+        | MAsync => add_task (TCommitSec muts) s2
+        | _ =>
+          let s3 := add_task (TCommitSec muts) (set_store (run_task (TCommitSec (co_sync o)) (store s2)) s2) in
+          if primary_in muts s then s3 else add_task (TCleanup muts) s3
+        end
+      | _ => add_task (TCleanup muts) s2
+      end
+    end
+  end.
+
+Lemma commit_body_ka o s :
+  commit_body o s = match ka s with KRunning _ => set_ka KClosed (commit_body0 o s) | _ => commit_body0 o s end.
 Proof.
-  intros HInv Ha. pose proof HInv as (HI & HL & HC). unfold commit_body.
+  unfold commit_body, commit_body0, ka_close, mutations, keep_mut, primary_in.
+  destruct s as [a1 a2 a3 a4 a5 a6 a7 a8 a9 a10 a11 a12 a13 a14]. cbn [ka set_valid valid written flags primary pess store fu cmaxc tasks set_ka set_committer].
+  destruct a14; cbn [ka set_valid valid written flags primary pess store fu cmaxc tasks set_ka set_committer];
+    destruct (dedup_sort _); try reflexivity;
+    destruct (co_mode o); destruct (co_res o); try reflexivity;
+    try (destruct a13; reflexivity);
+    match goal with |- context [match a8 with _ => _ end] => destruct (match a8 with Some p => memk p _ | None => true end); reflexivity end.
+Qed.
+
+Lemma Inv_commit_body0 o s : Inv s -> agg s = None -> Inv (commit_body0 o s).
+Proof.
+  intros HInv Ha. pose proof HInv as (HI & HL & HC). unfold commit_body0.
   pose proof (flags_in_mutations s (co_unnecessary o)) as Hfm.
   destruct (mutations (co_unnecessary o) s) as [|m0 ms] eqn:Em.
   - apply (Inv_of_tasks s); auto. intros p Hp. simpl in Hp.
@@ -111,15 +156,22 @@ Proof.
         destruct Ht as (t & T1 & T2). exists t; auto.
 Qed.
 
+Lemma Inv_commit_body o s : Inv s -> agg s = None -> Inv (commit_body o s).
+Proof.
+  intros H1 H2. rewrite commit_body_ka. destruct (ka s); auto using Inv_commit_body0, Inv_ka.
+Qed.
+
 Lemma agg_cancel_flags s : flags (agg_cancel s) = flags s.
 Proof.
-  unfold agg_cancel. destruct (agg s) as [a|]; auto. unfold cleanup_redundant.
-  destruct (prev a); destruct (aprim a || alastprim a); destruct (cur a); reflexivity.
+  unfold agg_cancel. destruct (agg s) as [a|]; auto. unfold cleanup_redundant, reset_primary, ka_reset.
+  destruct s as [a1 a2 a3 a4 a5 a6 a7 a8 a9 a10 a11 a12 a13 a14]; simpl.
+  destruct (prev a); destruct (aprim a || alastprim a); destruct a14; destruct (cur a); reflexivity.
 Qed.
 Lemma agg_cancel_written s : written (agg_cancel s) = written s.
 Proof.
-  unfold agg_cancel. destruct (agg s) as [a|]; auto. unfold cleanup_redundant.
-  destruct (prev a); destruct (aprim a || alastprim a); destruct (cur a); reflexivity.
+  unfold agg_cancel. destruct (agg s) as [a|]; auto. unfold cleanup_redundant, reset_primary, ka_reset.
+  destruct s as [a1 a2 a3 a4 a5 a6 a7 a8 a9 a10 a11 a12 a13 a14]; simpl.
+  destruct (prev a); destruct (aprim a || alastprim a); destruct a14; destruct (cur a); reflexivity.
 Qed.
 
 Lemma Inv_commit o s : Inv s -> pending s = false -> Inv (commit o s).
@@ -130,6 +182,8 @@ Qed.
 
 Lemma valid_commit_body o s : valid (commit_body o s) = false.
 Proof.
-  unfold commit_body. destruct (mutations (co_unnecessary o) s); auto.
-  destruct (co_mode o); destruct (co_res o); simpl; auto; try (destruct (pess s); auto); destruct (primary_in _ _); auto.
+  rewrite commit_body_ka. assert (valid (commit_body0 o s) = false).
+  { unfold commit_body0. destruct (mutations (co_unnecessary o) s); auto.
+    destruct (co_mode o); destruct (co_res o); simpl; auto; try (destruct (pess s); auto); destruct (primary_in _ _); auto. }
+  destruct (ka s); auto.
 Qed.
